@@ -1674,7 +1674,7 @@ pub fn run(ctx: &mut Ctx, eng: &mut dyn Engine) {
     //            Content-MD5, intact / one payload byte flipped, fed to a fresh real Receiver writing through
     //            ObjectWriterBufferBuilder::default(), ::new(true) and ObjectWriterFSBuilder::new(dir, true).  Oracle-only op
     //            `realwriter`: nothing that is not the sender's object may be held as complete / left in the destination.
-    for kind in ["bufdefault", "bufnew", "fs"] {
+    for kind in ["bufdefault", "bufnew", "bufoff", "fs"] {
         for flip in [None, Some(7usize), Some(40)] {
             let size = 50usize;
             let data = content(&mut rng, size);
